@@ -18,6 +18,20 @@ Theorem c14_pick_is_ready : forall W wzero fexpr fsqrt start order s0 ops d i id
 Proof. exact pick_is_ready. Qed.
 Print Assumptions c14_pick_is_ready.
 
+(* Picker construction from the READY set as gRPC hands it over: the ReadySCs map is keyed by the SubConn, so
+   `ready` has distinct ids, but several of them may carry the same Address.Addr (differing in ServerName or
+   Attributes, or exact duplicates).  Whatever the addresses are -- the theorem does not look at them --
+   every ready SubConn has its own tracked connection, after every history, for every N. *)
+Theorem c14_build_tracks_all_ready : forall W wzero fexpr fsqrt start (ready : ready_set) order s0 ops id,
+  build_ready start ready order = Some s0 ->
+  (forall x, In x (map fst ready) -> In x order) ->        (* order = iteration order of the map *)
+  In id (map fst ready) ->
+  List.length (conns (run W wzero fexpr fsqrt s0 ops)) = List.length order /\
+  exists pos c, nth_error (conns (run W wzero fexpr fsqrt s0 ops)) pos = Some c /\ scid c = id /\
+                nth_error order pos = Some id.
+Proof. exact tracks_all_ready. Qed.
+Print Assumptions c14_build_tracks_all_ready.
+
 (* In-flight = picks - completions for every connection after every history; never negative when every
    done func was called at most once. *)
 Theorem c14_inflight : forall W wzero fexpr fsqrt start order s0 ops i c,
@@ -156,6 +170,25 @@ Proof.
 Qed.
 Print Assumptions c14_force_pick.
 
+(* >= 3 connections (every N): of the two connections handed to choose (the first all-healthy drawn pair, else
+   the third pair), the one not picked for more than forcePick is picked now when the other one was picked
+   within the last second -- so a tracked connection that keeps being drawn is not starved. *)
+Theorem c14_pair_force_pick : forall fsqrt s d i id u s',
+  (3 <= List.length (conns s))%nat -> pick fsqrt s d = Ok (i, id, u, s') ->
+  exists i1 i2 c1 c2,
+    draw_loop (conns s) 3 d None 0 = Ok (i1, i2, u) /\
+    nth_error (conns s) i1 = Some c1 /\ nth_error (conns s) i2 = Some c2 /\ (i = i1 \/ i = i2) /\
+    (stale (now s) (pickt c1) -> ~ stale (now s) (pickt c2) -> i = i1) /\
+    (stale (now s) (pickt c2) -> ~ stale (now s) (pickt c1) -> i = i2).
+Proof.
+  intros fsqrt s d i id u s' Hlen E.
+  destruct (pair_force_pick fsqrt s d i id u s' Hlen E) as (i1 & i2 & c1 & c2 & H1 & H2 & H3 & H4 & F1 & F2).
+  exists i1, i2, c1, c2. unfold stale. unfold forcePick in *.
+  split; [exact H1|]. split; [exact H2|]. split; [exact H3|]. split; [exact H4|].
+  split; intros A B; [apply F1|apply F2]; lia.
+Qed.
+Print Assumptions c14_pair_force_pick.
+
 (* 2 connections, sustained traffic (every Pick comes at most 1 s after the previous one, i.e. while some
    connection is fresh): after EVERY Pick of EVERY such history each connection has been picked within
    the last second -- so between picks no connection is ever left unpicked for more than forcePick + the
@@ -278,3 +311,13 @@ Example c14_nonvacuous_client :
   new_client_dial_options "p2c_ewma" [WithTransportCredentials; WithDialOption (DUser 7); WithNonBlock; WithTimeout 5]
   = [DUnaryChain 5; DStreamChain; DSvcCfg "p2c_ewma"; DCreds; DUser 7].
 Proof. reflexivity. Qed.
+
+(* four ready SubConns, three of them on the same Addr (two of those with the same ServerName): all four are tracked *)
+Definition ex_ready : ready_set := [(0%nat, (1, 0)); (1%nat, (1, 5)); (2%nat, (1, 5)); (3%nat, (2, 0))].
+Example c14_nonvacuous_shared_addr :
+  match build_ready 3600000000000 ex_ready [2; 3; 0; 1]%nat with
+  | Some s0 => map scid (conns s0) = [2; 3; 0; 1]%nat /\
+               conn_addrs ex_ready [2; 3; 0; 1]%nat = [Some (1, 5); Some (2, 0); Some (1, 0); Some (1, 5)]
+  | None => False
+  end.
+Proof. vm_compute. split; reflexivity. Qed.
